@@ -1,9 +1,16 @@
 import SqlframeModel.Codec.Basic
 import SqlframeModel.Impl.C02Prog
+import SqlframeModel.Impl.C02Ctes
 namespace Sqlframe
 open Lean
 deriving instance FromJson, ToJson for Ref
 deriving instance FromJson, ToJson for PExpr
 deriving instance FromJson, ToJson for OnForm
+deriving instance FromJson, ToJson for SItem
+deriving instance FromJson, ToJson for SqlSel
+deriving instance FromJson, ToJson for SqlBody
+deriving instance FromJson, ToJson for SqlCte
 deriving instance FromJson, ToJson for FrameDef
+deriving instance FromJson, ToJson for Body
+deriving instance FromJson, ToJson for NCte
 end Sqlframe
